@@ -250,3 +250,47 @@ fn c09_frame_protocol_reach() {
     b.new_frame();
     kani::assert(false, "c09.reach");
 }
+
+// @harness
+// @prop C09
+// @tier quick
+// @features precise-border
+// @timeout 900
+// @fn ZXBorder::set_border; ZXBorder::fill_to (real loop); ZXBorder::next_border_pixel
+// @sym machine, time of the previous border write and of this one (non-decreasing, at most 10 pixels of beam travel apart, same frame), both colours, border_changed flag, witness pixel
+// @assert one border write from a consistent mid-frame state (inductive step of the frame tiling): exactly the pixels between the previous write's beam position and this write's beam position are painted, once, in the PREVIOUS colour, nothing else is touched, and the new position/colour are recorded for the next step
+// @bound beam travel <= 10 pixels between the two writes so that the real fill loop unrolls (unwind 13); longer spans are covered by c09_frame_protocol with the loop summarised
+#[kani::proof]
+#[kani::unwind(13)]
+fn c09_write_step_short_span() {
+    let m = any_machine();
+    let w = witness();
+    let mut b = ZXBorder::<WitFb>::new(m, w);
+    let t_prev: usize = kani::any();
+    let t: usize = kani::any();
+    kani::assume(t_prev <= t && t < spec_frame_t(m));
+    let (l0, p0, e0) = b.next_border_pixel(t_prev);
+    let (l1, p1, e1) = b.next_border_pixel(t);
+    kani::assume(!e0 && !e1);
+    let from = raster(l0, p0, false);
+    let to = raster(l1, p1, false);
+    kani::assume(to <= from + 10);
+    let c0 = any_color();
+    let c1 = any_color();
+    b.beam_last = BeamInfo::new(l0, p0, c0);
+    b.border_changed = kani::any();
+    b.beam_block = false;
+    b.set_border(t, c1);
+    let wr = w.wy * SCREEN_WIDTH + w.wx;
+    let inside = from <= wr && wr < to;
+    kani::assert(!b.buffer.oob, "c09.step.in_buffer");
+    kani::assert(b.buffer.hits == if inside { 1 } else { 0 }, "c09.step.exactly_the_span_since_the_previous_write");
+    if inside {
+        kani::assert(b.buffer.color == u8::from(c0), "c09.step.span_gets_previous_colour");
+    }
+    kani::assert(b.beam_last.line == l1 && b.beam_last.pixel == p1 && u8::from(b.beam_last.color) == u8::from(c1), "c09.step.position_and_colour_recorded");
+    kani::assert(b.border_changed && !b.beam_block, "c09.step.flags");
+    kani::cover!(inside && l0 == l1 && p0 > 100, "two writes on one line, witness between them");
+    kani::cover!(inside && l1 == l0 + 1, "span across a line end");
+    kani::cover!(from == to, "two writes at the same beam position");
+}
